@@ -110,7 +110,7 @@ func (g *genState) name() string {
 func (g *genState) sub() string {
 	if g.cfg.Subs && g.r.Chance(1, 3) {
 		if g.r.Chance(1, 8) {
-			return Subs[3+g.r.Intn(3)] // an oddity: "S1", "p%d", "k=v"
+			return Subs[3+g.r.Intn(4)] // an oddity: "S1", "p%d", "k=v", and "k" (a prefix of the former up to its equals sign)
 		}
 		return Subs[g.r.Intn(2)]
 	}
@@ -138,6 +138,9 @@ func (g *genState) slots(n int, form int, output bool) []Slot {
 			if g.cfg.Names && g.r.Chance(1, 2) {
 				s.Name = g.name()
 				s.Spell = g.r.Intn(3)
+			}
+			if g.r.Chance(1, 6) {
+				s.Spell += 3 * g.r.Intn(7) // tag variants (see structTypeOf)
 			}
 			s.Sub = g.sub()
 		}
